@@ -10,15 +10,23 @@ SPEC = {
              "1-4 consumers x {drained directly, run inside the real engine with a counting gun}; providers are built through "
              "config.DecodeAndValidate on a mem fs. Unbounded cells (no limit, no passes) are cancelled 0-20 ms after the consumers took their last ammo, so that the provider has filled "
              "its queue and is parked on the hand-over when the cancel arrives (generic json provider also with ammo-queue-size 1/4/64). "
+             "Half of the unbounded cells use the live drain (provrun.DrainLive): the consumers never stop acquiring by themselves, so the cancel "
+             "arrives while they are in or about to enter Acquire, and 0-3 late consumers call Acquire only after Run has returned; all of them "
+             "must come to end of ammo. In a quarter of the unbounded cells of the kinds that read their file while running (uri, uripost, raw, "
+             "http/json lines, grpc/json, generic json) the good entries are followed by a malformed one, so that the provider stops by failing "
+             "while the consumers are acquiring (class provider_failed_with_consumers_acquiring). "
              "Non-trivial = a bound is hit (X finite) and the cell is not plain streaming uri; "
              "distinct = hash of the case. Every kind x bound-combination cell must occur (required classes)."),
     "required_classes": ['TestBounds/uri/limit_only', 'TestBounds/uri/passes_only', 'TestBounds/uri/both', 'TestBounds/uri/none', 'TestBounds/uripost/limit_only', 'TestBounds/uripost/passes_only', 'TestBounds/uripost/both', 'TestBounds/uripost/none', 'TestBounds/raw/limit_only', 'TestBounds/raw/passes_only', 'TestBounds/raw/both', 'TestBounds/raw/none', 'TestBounds/jsonline/limit_only', 'TestBounds/jsonline/passes_only', 'TestBounds/jsonline/both', 'TestBounds/jsonline/none', 'TestBounds/jsonarray/limit_only', 'TestBounds/jsonarray/passes_only', 'TestBounds/jsonarray/both', 'TestBounds/jsonarray/none', 'TestBounds/grpc/json/limit_only', 'TestBounds/grpc/json/passes_only', 'TestBounds/grpc/json/both', 'TestBounds/grpc/json/none', 'TestBounds/http/scenario/limit_only', 'TestBounds/http/scenario/passes_only', 'TestBounds/http/scenario/both', 'TestBounds/http/scenario/none', 'TestBounds/grpc/scenario/limit_only', 'TestBounds/grpc/scenario/passes_only', 'TestBounds/grpc/scenario/both', 'TestBounds/grpc/scenario/none', 'TestBounds/json/limit_only', 'TestBounds/json/passes_only', 'TestBounds/json/both', 'TestBounds/json/none'],
-    "floors": {"TestBounds/preload": 0.15, "TestBounds/single_entry": 0.1, "TestBounds/through_engine": 0.2},
+    "floors": {"TestBounds/preload": 0.15, "TestBounds/single_entry": 0.1, "TestBounds/through_engine": 0.2,
+               "TestBounds/live_consumers": 0.07, "TestBounds/late_consumers": 0.04,
+               "TestBounds/provider_failed_with_consumers_acquiring": 0.012},
     "manifest": {
         "technique": "property-based testing (rapid) over the provider-kind x bound matrix with a counting oracle and a hang watchdog",
         "text": ("For every generated cell the provider must deliver exactly min(limit, passes*entries) ammo (non-zero bounds only), then "
                  "consumers see end of ammo and Run returns nil without being cancelled; inside the engine the run ends successfully "
-                 "with exactly that many shots; unbounded providers release all consumers and return promptly on cancel."),
+                 "with exactly that many shots; unbounded providers release all consumers and return promptly on cancel, also consumers that are acquiring "
+                 "when the cancel (or a decode failure) stops the provider and consumers that call Acquire only after Run has returned."),
         "note": ("Hang verdicts use a 5 s deadline (normal completion < 10 ms) and require the provider to still be stuck after cancel "
                  "or to return only because of it. Scenario files are minimal hand-written YAML (n scenarios of weight 1)."),
     },
